@@ -54,6 +54,30 @@ CLAIMED.update({
             "DESIGN.md 5 C07"),
 })
 
+CLAIMED.update({
+    "C06": ("model_checking",
+            "Strings.tla transcribes StringValue / BlockStringValue(); TLC enumerates all lexically valid literals over character "
+            "classes up to the bound with their reference value; the real code must produce that value in 22 CST/AST positions; "
+            "recorded random literals are validated by TLC.",
+            "Strings.tla is my transcription of section 2.9.4; literal validity is decided by LexGrammar (C03).",
+            "TLA+ reference semantics executed by TLC; exhaustive bounded enumeration replayed + TLC trace validation",
+            "DESIGN.md 5 C06"),
+    "C09": ("model_checking",
+            "Every string over 10 character classes up to the bound (and random Unicode strings) is put in 22 AST positions, serialized "
+            "under all configurations and reparsed by the real code; TLC additionally decodes every printed literal with the "
+            "specification's semantics (Strings.tla) and requires the original value and a single valid string token.",
+            "The decoder is the TLA+ reference, independent of apollo's parser.",
+            "TLC-enumerated values replayed through serializer+parser; printed literals validated by TLC against LexGrammar/Strings",
+            "DESIGN.md 5 C09"),
+    "C10": ("model_checking",
+            "LexGrammar's IsName / IsIntLiteral / IsFloatLiteral decide every string up to the bound; all constructors and serde "
+            "deserializers must agree; printed i32/f64 literals are validated by TLC; every type reference up to the depth bound "
+            "prints to text that is a Type of Grammar.tla (model-level) and parses back (replay).",
+            "IEEE-754 identity is observed as bit equality, not modelled.",
+            "TLA+ predicates executed by TLC; exhaustive bounded enumeration replayed + TLC trace validation",
+            "DESIGN.md 5 C10"),
+})
+
 NOT_APPLICABLE = {}
 
 ALL = ["C%02d" % i for i in range(1, 34)]
